@@ -1,4 +1,217 @@
 import Tfv.Model
+import Tfv.Spec.Sub
+import Tfv.Spec.Fits
+import Tfv.Proofs.SubOrder
+import Tfv.Proofs.Fits
+/-!
+# C06 — an elimination constraint eliminates exactly the alternatives the argument does not fit
+
+`fulfill` of `x << {alt1, alt2, …}` keeps `alts.filter (fun t => match3 … ref t != some false)`
+and raises `constraintViolation` when nothing is left. For a concrete reference `x` and
+alternatives whose variables are free in the store (plain or wildcard), `match3 … = some false`
+is exactly `fitsB L true x alt = false` (`Tfv/Spec/Fits.lean`), and `fitsB` is the executable
+form of "some instance of the alternative is a supertype of `x`" (`Fits`).
+Statements only; proofs are one-liners calling lemmas of `Tfv/Proofs/Fits.lean`.
+-/
 namespace Tfv.C06
-theorem placeholder : True := trivial
+open Tfv
+
+/-! ## the specification `fitsB` is what it claims to be -/
+
+/-- on a variable-free pattern `fitsB` is the concrete matcher `matchC` (both polarities) -/
+theorem C06_fits_concrete (L : Lang) (pol : Bool) (x t : Ty) :
+    fitsB L pol x t.toTerm = matchC L true pol x t := fits_concrete L pol x t
+
+/-- … hence a concrete alternative fits exactly when the argument is a declared subtype of it -/
+theorem C06_fits_concrete_sub (L : Lang) (wf : WF L) (x t : Ty)
+    (hx : wfTy L x = true) (ht : wfTy L t = true) :
+    fitsB L true x t.toTerm = true ↔ Sub L x t := fits_concrete_sub wf x t hx ht
+
+/-- for a linear, well-formed pattern: `fitsB L true x p` holds iff `x` is a subtype of some
+well-formed instance of `p` -/
+theorem C06_fits_iff (L : Lang) (wf : WF L) (x : Ty) (p : Term)
+    (hx : wfTy L x = true) (hp : wfTm L p = true) (hl : linear p) :
+    fitsB L true x p = true ↔ Fits L x p := fits_iff wf x p hx hp hl
+
+/-- the contravariant reading: `fitsB L false x p` holds iff some instance of `p` is a subtype of `x` -/
+theorem C06_fits_below_iff (L : Lang) (wf : WF L) (x : Ty) (p : Term)
+    (hx : wfTy L x = true) (hp : wfTm L p = true) (hl : linear p) :
+    fitsB L false x p = true ↔ FitsBelow L x p := fits_below_iff wf x p hx hp hl
+
+/-- without linearity only one direction holds: whenever an instance is a supertype, `fitsB` says yes
+(no hypothesis on the pattern's variables) -/
+theorem C06_fits_of_instance (L : Lang) (wf : WF L) (x : Ty) (p : Term)
+    (hx : wfTy L x = true) (hp : wfTm L p = true) (h : Fits L x p) : fitsB L true x p = true :=
+  fits_of_instance wf x p hx hp h
+
+/-- linearity cannot be dropped from `C06_fits_iff`: `b ** b` passes `fitsB` against `A ** C`
+(`A`, `C` unrelated) but no instance of it is a supertype -/
+theorem C06_fits_iff_needs_linear :
+    fitsB FitsEx.exL true FitsEx.xAC FitsEx.pNonLinear = true ∧
+      ¬ Fits FitsEx.exL FitsEx.xAC FitsEx.pNonLinear :=
+  ⟨FitsEx.nonlinear_fitsB, FitsEx.nonlinear_not_fits⟩
+
+/-! ## the model's matcher -/
+
+/-- the argument loop of `match3` (started with `some true`) answers `some false` exactly when
+some zipped argument position is decided `some false` -/
+theorem C06_loop_some_false (L : Lang) (σ : Store) (n : Nat) (st aw : Bool)
+    (vs : List Bool) (ss ts : List Term) :
+    match3.loop L σ n st aw vs ss ts (some true) = some false ↔ anyFalse L σ n st aw vs ss ts :=
+  loop_start_some_false L σ n st aw vs ss ts
+
+/-- **Elimination.** `x` concrete, the variables of the alternative `p` free in the store (unbound,
+no bounds, wildcard or not), fuel above the depth of `x`: the matcher answers `some false`
+exactly when `x` does not fit `p`. -/
+theorem C06_match3_eliminates (L : Lang) (σ : Store) (n : Nat) (x : Ty) (p : Term)
+    (hf : PatFree σ p) (hn : Ty.depth x < n) :
+    match3 L σ n true true x.toTerm p = some false ↔ fitsB L true x p = false :=
+  match3_eliminates L σ n x p hf hn
+
+/-- the symmetric statement used in contravariant positions (pattern on the left) -/
+theorem C06_match3_eliminates_contra (L : Lang) (σ : Store) (n : Nat) (x : Ty) (p : Term)
+    (hf : PatFree σ p) (hn : Ty.depth x < n) :
+    match3 L σ n true true p x.toTerm = some false ↔ fitsB L false x p = false :=
+  match3_eliminates_contra L σ n x p hf hn
+
+/-- a definite yes is a fit -/
+theorem C06_match3_true_fits (L : Lang) (σ : Store) (n : Nat) (x : Ty) (p : Term)
+    (hf : PatFree σ p) (hn : Ty.depth x < n)
+    (h : match3 L σ n true true x.toTerm p = some true) : fitsB L true x p = true :=
+  match3_not_false_fits L σ n x p hf hn (by rw [h]; simp)
+
+/-- "not enough information" is a fit as well (the alternative is kept) -/
+theorem C06_match3_none_fits (L : Lang) (σ : Store) (n : Nat) (x : Ty) (p : Term)
+    (hf : PatFree σ p) (hn : Ty.depth x < n)
+    (h : match3 L σ n true true x.toTerm p = none) : fitsB L true x p = true :=
+  match3_not_false_fits L σ n x p hf hn (by rw [h]; simp)
+
+/-- **The filter of `fulfill`** keeps exactly the fitting alternatives. -/
+theorem C06_filter_keeps_fitting (L : Lang) (σ : Store) (n : Nat) (x : Ty) (alts : List Term)
+    (hf : ∀ t ∈ alts, PatFree σ t) (hn : Ty.depth x < n) :
+    alts.filter (fun t => match3 L σ n true true x.toTerm t != some false) =
+      alts.filter (fun t => fitsB L true x t) := filter_keeps_fitting L σ n x alts hf hn
+
+/-- the same with the fuel `fulfill` really uses -/
+theorem C06_fulfill_filter (L : Lang) (σ : Store) (x : Ty) (alts : List Term)
+    (hf : ∀ t ∈ alts, PatFree σ t) (hn : Ty.depth x < 64) :
+    alts.filter (fun t => match3 L σ (matchFuel σ) true true x.toTerm t != some false) =
+      alts.filter (fun t => fitsB L true x t) :=
+  filter_keeps_fitting L σ (matchFuel σ) x alts hf (by unfold matchFuel; omega)
+
+/-- the filtered list is empty (the model raises `constraintViolation`) iff no alternative fits -/
+theorem C06_accept_iff_fits_filter (L : Lang) (σ : Store) (n : Nat) (x : Ty) (alts : List Term)
+    (hf : ∀ t ∈ alts, PatFree σ t) (hn : Ty.depth x < n) :
+    alts.filter (fun t => match3 L σ n true true x.toTerm t != some false) = [] ↔
+      ∀ t ∈ alts, fitsB L true x t = false := filter_empty_iff L σ n x alts hf hn
+
+/-- … in declarative terms, for linear well-formed alternatives: violation iff the argument is a
+subtype of no instance of any alternative -/
+theorem C06_violation_iff_no_fit (L : Lang) (wf : WF L) (σ : Store) (n : Nat) (x : Ty) (alts : List Term)
+    (hx : wfTy L x = true) (hp : ∀ t ∈ alts, wfTm L t = true) (hl : ∀ t ∈ alts, linear t)
+    (hf : ∀ t ∈ alts, PatFree σ t) (hn : Ty.depth x < n) :
+    alts.filter (fun t => match3 L σ n true true x.toTerm t != some false) = [] ↔
+      ∀ t ∈ alts, ¬ Fits L x t := filter_empty_iff_no_fit wf σ n x alts hx hp hl hf hn
+
+/-- concrete alternatives need no hypothesis on the store -/
+theorem C06_concrete_alt_free (σ : Store) (t : Ty) : PatFree σ t.toTerm := patFree_concrete σ t
+
+/-! ## the reference is a variable with a base-type bound -/
+
+/-- unbound reference variable with lower bound `l` (no upper bound), base-type alternative `bo`:
+eliminated exactly when the lower bound is not below the alternative -/
+theorem C06_bounded_var (L : Lang) (σ : Store) (n : Nat) (a l bo : Nat) (hn : 0 < n)
+    (hb : (getVar σ a).bound = none) (hl : (getVar σ a).lower = some l)
+    (hu : (getVar σ a).upper = none) (h0 : arityOf L bo = 0) :
+    match3 L σ n true true (.var a) (.app bo []) = some false ↔ (bo ≠ TOP ∧ opSub L l bo = false) :=
+  bounded_var_base L σ n a l bo [] hn hb hl hu h0
+
+/-- a compound alternative (other than Top) is always eliminated for a bounded reference variable -/
+theorem C06_bounded_var_compound (L : Lang) (σ : Store) (n : Nat) (a l bo : Nat) (bs : List Term)
+    (hn : 0 < n) (hb : (getVar σ a).bound = none) (hl : (getVar σ a).lower = some l)
+    (h0 : arityOf L bo ≠ 0) (ht : bo ≠ TOP) :
+    match3 L σ n true true (.var a) (.app bo bs) = some false :=
+  bounded_var_compound L σ n a l bo bs hn hb hl h0 ht
+
+/-- with an upper bound `u` only, a base-type alternative is never eliminated: the variable may still become
+any subtype of `u` (this is the repaired `match`; before the repair an alternative strictly below the upper
+bound was eliminated, which made the outcome depend on the re-check order, see C18) -/
+theorem C06_bounded_var_upper (L : Lang) (σ : Store) (n : Nat) (a u bo : Nat) (hn : 0 < n)
+    (hb : (getVar σ a).bound = none) (hl : (getVar σ a).lower = none)
+    (hu : (getVar σ a).upper = some u) (h0 : arityOf L bo = 0) :
+    match3 L σ n true true (.var a) (.app bo []) ≠ some false :=
+  bounded_var_upper L σ n a u bo [] hn hb hl hu h0
+
+/-! ## non-vacuity: `A > B`, unary `F`, binary `G`, unrelated `C` -/
+
+open FitsEx
+
+/-- variable 0 is a plain variable `b`, variable 1 the wildcard `_` -/
+def exσ : Store := { vars := [{}, { wildcard := true }], csets := [[], []] }
+/-- `G(b, _)` -/
+def pG : Term := .app 8 [.var 0, .var 1]
+/-- `G(B, A)` -/
+def xG : Ty := .app 8 [.app 6 [], .app 5 []]
+/-- the alternatives `F(b)`, `G(b, _)`, `G(A, B)`, `G(A, A)` -/
+def exAlts : List Term :=
+  [.app 7 [.var 0], pG, .app 8 [.app 5 [], .app 6 []], .app 8 [.app 5 [], .app 5 []]]
+
+theorem ar8 : arityOf exL 8 = 2 := rfl
+theorem va8 : varianceOf exL 8 = [true, true] := rfl
+theorem ar7 : arityOf exL 7 = 1 := rfl
+theorem ar6 : arityOf exL 6 = 0 := rfl
+theorem ar5 : arityOf exL 5 = 0 := rfl
+theorem ar4 : arityOf exL 4 = 2 := rfl
+theorem va4 : varianceOf exL 4 = [false, true] := rfl
+
+-- hypotheses of the theorems are satisfiable
+example : WF exL := exL_wf
+example : PatFree exσ pG := by decide
+example : ∀ t ∈ exAlts, PatFree exσ t := by decide
+example : ∀ t ∈ exAlts, linear t := by decide
+example : ∀ t ∈ exAlts, wfTm exL t = true := by decide
+example : wfTy exL xG = true := by decide
+example : Ty.depth xG < matchFuel exσ := by decide
+-- `G(B, A)` fits `G(b, _)`; the matcher says "not enough information" and keeps it
+example : fitsB exL true xG pG = true := by decide
+example : match3 exL exσ (matchFuel exσ) true true xG.toTerm pG = none := by
+  simp [matchFuel, match3, match3.loop, xG, pG, Ty.toTerm, Ty.toTermL, followT, follow, getVar, exσ,
+    ar8, va8, ar5, ar6, BOT, TOP]
+example : Fits exL xG pG :=
+  (C06_fits_iff exL exL_wf xG pG (by decide) (by decide) (by decide)).mp (by decide)
+-- `G(B, A)` does not fit `F(b)` nor `G(A, B)`
+example : fitsB exL true xG (.app 7 [.var 0]) = false := by decide
+example : match3 exL exσ (matchFuel exσ) true true xG.toTerm (.app 7 [.var 0]) = some false := by
+  simp [matchFuel, match3, xG, Ty.toTerm, Ty.toTermL, followT, follow, ar8, BOT, TOP]
+example : match3 exL exσ (matchFuel exσ) true true xG.toTerm (.app 8 [.app 5 [], .app 6 []]) = some false :=
+  (C06_match3_eliminates exL exσ _ xG _ (by decide) (by decide)).mpr (by decide)
+-- the filter keeps `G(b, _)` and `G(A, A)`
+example : exAlts.filter (fun t => match3 exL exσ (matchFuel exσ) true true xG.toTerm t != some false) =
+    [pG, .app 8 [.app 5 [], .app 5 []]] := by
+  rw [C06_fulfill_filter exL exσ xG exAlts (by decide) (by decide)]; rfl
+-- and rejects everything for the argument `C`
+example : exAlts.filter (fun t => match3 exL exσ (matchFuel exσ) true true (Ty.app 9 []).toTerm t != some false) = [] :=
+  (C06_accept_iff_fits_filter exL exσ _ (.app 9 []) exAlts (by decide) (by decide)).mpr (by decide)
+-- contravariance: `A ** F(B)` fits `b ** F(_)` and `B ** _`, but `B ** F(B)` does not fit `A ** _`
+example : fitsB exL true (.app FUN [.app 5 [], .app 7 [.app 6 []]]) (.app FUN [.var 0, .app 7 [.var 1]]) = true := by decide
+example : fitsB exL true (.app FUN [.app 5 [], .app 7 [.app 6 []]]) (.app FUN [.app 6 [], .var 1]) = true := by decide
+example : fitsB exL true (.app FUN [.app 6 [], .app 7 [.app 6 []]]) (.app FUN [.app 5 [], .var 1]) = false := by decide
+example : match3 exL exσ (matchFuel exσ) true true
+    (Ty.app FUN [.app 6 [], .app 7 [.app 6 []]]).toTerm (.app FUN [.app 5 [], .var 1]) = some false :=
+  (C06_match3_eliminates exL exσ _ _ _ (by decide) (by decide)).mpr (by decide)
+
+/-- variable 0 has lower bound `B`, variable 1 has upper bound `A` -/
+def exσ2 : Store := { vars := [{ lower := some 6 }, { upper := some 5 }], csets := [[], []] }
+
+-- lower bound `B`: the alternative `A` stays, `C` and `F(_)` go
+example : match3 exL exσ2 8 true true (.var 0) (.app 5 []) ≠ some false := by
+  rw [Ne, C06_bounded_var exL exσ2 8 0 6 5 (by decide) rfl rfl rfl rfl]; decide
+example : match3 exL exσ2 8 true true (.var 0) (.app 9 []) = some false :=
+  (C06_bounded_var exL exσ2 8 0 6 9 (by decide) rfl rfl rfl rfl).mpr (by decide)
+example : match3 exL exσ2 8 true true (.var 0) (.app 7 [.var 1]) = some false :=
+  C06_bounded_var_compound exL exσ2 8 0 6 7 _ (by decide) rfl rfl (by decide) (by decide)
+-- upper bound `A`: the alternative `B < A` is kept, the variable can still become `B`
+example : match3 exL exσ2 8 true true (.var 1) (.app 6 []) ≠ some false :=
+  C06_bounded_var_upper exL exσ2 8 1 5 6 (by decide) rfl rfl rfl rfl
+
 end Tfv.C06
